@@ -1,7 +1,42 @@
-import Driver.Util
-/- Sub-protocol `C14`: not built yet. -/
+import Driver.Snap
+/-
+Sub-protocol `C14` (loading well-formed SNA / SZX / SCR). Common requests: see Driver/Snap.lean.
+The current file is set with `file` / `fileadd`; compressed RAM pages travel as tags (`z<desc>`),
+`inflateTag` is the model's and the spec's `inflate` parameter.
+  load sna|szx|scr <recv> <dst>
+      -> ok <obs> | err <kind>          model: snaLoad / szxLoad / scrLoad with the selected repairs
+         | spec <obs> | spec none       what the file describes on top of the receiver's abstract
+                                        state (SZX: HALTED read as "PC at the HALT opcode")
+         | specb <pc>                   SZX only: PC under the other reading ("PC after the HALT")
+-/
 namespace Driver.C14
+open ZxVerif.Snap Driver Driver.Snap
 
-def proto : Driver.Proto := { σ := Unit, init := (), handle := fun s _ => (s, "unimplemented") }
+def handle (s : St) (req : List String) : St × String :=
+  match common s req with
+  | some r => r
+  | none =>
+    match req with
+    | ["load", kind, r, d] =>
+      let recv := s.slot r
+      let a := Spec.abs recv
+      let (res, spec, specb) :=
+        if kind = "sna" then (snaLoad s.fx s.file recv, Spec.describeSna s.file a, none)
+        else if kind = "szx" then
+          (szxLoad s.fx inflateTag s.file recv, Spec.describeSzx .pcAtHalt inflateTag s.file a,
+           (Spec.describeSzx .pcAfterHalt inflateTag s.file a).map (·.regs.pc))
+        else (scrLoad s.file recv, Spec.describeScr s.file a, none)
+      let st := match spec with
+        | some x => " | spec " ++ fmtA x
+        | none => " | spec none"
+      let sb := match specb with
+        | some pc => " | specb " ++ hex16 pc
+        | none => ""
+      match res with
+      | .ok m => (s.setSlot d m, "ok " ++ fmtM m ++ st ++ sb)
+      | .error e => (s, "err " ++ errName e ++ st ++ sb)
+    | _ => (s, "bad-op")
+
+def proto : Driver.Proto := { σ := St, init := {}, handle := handle }
 
 end Driver.C14
